@@ -46,6 +46,7 @@ def make_file(schema, fileno, refpat, idpat):
 
 def append_case(case):
     d = p21run._G['d']
+    d.recycle_if_big()
     res = {}
     try:
         d.cmd('new')
